@@ -2,6 +2,7 @@ package sql
 
 import (
 	"database/sql/driver"
+	"strings"
 
 	"seata.apache.org/seata-go/pkg/datasource/sql/undo"
 	"seata.apache.org/seata-go/pkg/protocol/branch"
@@ -86,4 +87,101 @@ func VerifC01Recorded() {
 	}
 	vrt.Assert(rerr == nil && stt == branch.BranchStatusPhasetwoRollbacked, "c01/recorded/rollbacked/"+name)
 	vrt.Assert(uSameTable(s, uw.d.rows, initial), "c01/recorded/table-restored/"+name)
+}
+
+// VerifC09Recorded: as VerifC01Recorded, but after the branch's local commit a
+// foreign writer changes one cell of one row the branch touched (or removes the
+// row); with data validation on, a rollback that answers 'rollbacked' must not
+// have overwritten that write.
+func VerifC09Recorded() {
+	st := c18Stmts[vrt.Choice("statement", len(c18Stmts))]
+	name := st.name
+	if !st.valid || strings.HasPrefix(name, "insert-") || strings.HasPrefix(name, "delete-") || strings.HasPrefix(name, "multi-delete") || strings.HasPrefix(name, "upsert-") {
+		return // the insert / delete undo executors validate nothing: recorded findings of VerifC09Foreign
+	}
+	w := c18Setup(st.composite, c18AutoKey(st.name))
+	s := uSchemas[0]
+	if st.composite {
+		s = uSchemas[1]
+	}
+	args := make([]driver.NamedValue, st.nargs)
+	argNames := []string{"arg0", "arg1", "arg2", "arg3", "arg4", "arg5", "arg6"}
+	for i := range args {
+		if kv, ok := st.keyArgs[i]; ok {
+			args[i] = driver.NamedValue{Ordinal: i + 1, Value: kv}
+		} else {
+			args[i] = driver.NamedValue{Ordinal: i + 1, Value: vrt.Int64(argNames[i])}
+		}
+	}
+	tx, err := w.c.BeginTx(w.ctx, driver.TxOptions{})
+	vrt.Assert(err == nil && tx != nil, "c09/recorded/begin-ok")
+	_, err = w.c.ExecContext(w.ctx, st.query, args)
+	if err != nil || w.d.bad != "" || len(w.d.changedBefore) == 0 {
+		return
+	}
+	befores, afters := w.c.txCtx.RoundImages.BeofreImages(), w.c.txCtx.RoundImages.AfterImages()
+	var logs []undo.SQLUndoLog
+	for i := 0; i < len(befores) || i < len(afters); i++ {
+		var l undo.SQLUndoLog
+		if i < len(befores) && befores[i] != nil {
+			l.TableName, l.SQLType, l.BeforeImage = befores[i].TableName, befores[i].SQLType, befores[i]
+		} else if i < len(afters) && afters[i] != nil {
+			l.TableName, l.SQLType = afters[i].TableName, afters[i].SQLType
+		}
+		if i < len(afters) {
+			l.AfterImage = afters[i]
+		}
+		logs = append(logs, l)
+	}
+	xid, branchID := "xid-1", int64(7)
+	uw := uSetup(s, &undo.BranchUndoLog{Xid: xid, BranchID: uint64(branchID), Logs: logs}, xid, branchID)
+	undo.UndoConfig.DataValidation = true
+	uw.addUndoLog()
+	for _, r := range w.d.rows {
+		if r.present {
+			cells := make([]driver.Value, len(r.cells))
+			for k, c := range r.cells {
+				cells[k] = c
+			}
+			uw.d.rows = append(uw.d.rows, uRow{cells: cells, present: true})
+		}
+	}
+	// the foreign write: one non-key cell of the first row the branch changed
+	victim := w.d.changedBefore[0]
+	var target *uRow
+	for i := range uw.d.rows {
+		same := true
+		for _, p := range w.d.pk {
+			if uw.d.rows[i].cells[p] != driver.Value(victim.cells[p]) {
+				same = false
+			}
+		}
+		if same {
+			target = &uw.d.rows[i]
+		}
+	}
+	if target == nil {
+		return
+	}
+	col := len(s.cols) - 1 - vrt.Choice("foreign.column", len(s.cols)-len(s.pk))
+	if s.isPK(col) {
+		return
+	}
+	foreign := vrt.Int64("foreign.value")
+	vrt.Assume(driver.Value(foreign) != target.cells[col])
+	target.cells[col] = foreign
+	key := pkVals(*target, s)
+	stt, _, panicked := uw.rollback()
+	vrt.Reach("c09/recorded/" + name)
+	vrt.Assert(!panicked && uw.d.bad == "", "c09/recorded/no-panic/"+name)
+	if panicked || uw.d.bad != "" {
+		return
+	}
+	if stt == branch.BranchStatusPhasetwoRollbacked {
+		vrt.Reach("c09/recorded/rollbacked")
+		row := uw.d.find(key)
+		vrt.Assert(row != nil && row.cells[col] == driver.Value(foreign), "c09/recorded/rollbacked=>foreign-write-survives/"+name)
+	} else {
+		vrt.Reach("c09/recorded/refused")
+	}
 }
